@@ -236,6 +236,14 @@ def one(ctx, i):
         GEN.add_const_rules(rng, spec)
     n = spec['_ref']['n']
     dt = spec['schedule'][0]['dt']
+    if i % 11 == 4:
+        # two timer rules whose windows overlap from the middle of the run on: the documented outcome is a ValueError at that
+        # instant (nothing for this property to judge) -- NOT a run that returns normally before its duration is over
+        dts_ = GEN.qsi(dt)
+        k0_ = rng.randint(2, max(3, n // 2)) + 0.5
+        spec['rules'] = [{'type': 'const', 'start': GEN.Q('Time', 0.0, 'sec'), 'dur': GEN.Q('TimeInterval', GEN.sig(3 * n * dts_, 12), 'sec'), 'value': 0.8},
+                         {'type': 'const', 'start': GEN.Q('Time', GEN.sig(k0_ * dts_, 12), 'sec'), 'dur': GEN.Q('TimeInterval', GEN.sig(3 * n * dts_, 12), 'sec'), 'value': 0.5}]
+        ctx.count('cases_with_rules_conflicting_in_mid_run')
     continued = i % 5 == 0
     if continued:
         n1 = rng.randint(3, n - 3)
